@@ -1068,7 +1068,7 @@ def painted_observers():
     b_env = {"DELTA_VERIF_FORCE_GUESS": "git blame src/a.zzz"}
     obs["blame-code-style"] = (BLAME_TXT, b_env, g_args, _text_cells("codeq one"))
     obs["blame-separator-style"] = (BLAME_TXT, b_env, g_args, _text_cells("│"))
-    m_args = g_args + ["--file-decoration-style=none"]
+    m_args = g_args + ["--file-decoration-style=none", "--hunk-header-decoration-style=none", "--commit-decoration-style=none"]
     obs["merge-conflict-ours-diff-header-style"] = (MERGE_DIFF, {}, m_args + ["--merge-conflict-ours-diff-header-decoration-style=none"], _text_cells("HEAD"))
     obs["merge-conflict-theirs-diff-header-style"] = (MERGE_DIFF, {}, m_args + ["--merge-conflict-theirs-diff-header-decoration-style=none"], _text_cells("branch"))
     obs["merge-conflict-ours-diff-header-decoration-style"] = (MERGE_DIFF, {}, m_args + ["--merge-conflict-theirs-diff-header-decoration-style=none"], _box_after("HEAD"))
